@@ -74,9 +74,27 @@ func stateOf(name string) string {
 	return ""
 }
 
+// leaverAt > 0: see run (one case runs per process at a time).
+var leaverAt int
+
 func run(res *core.CaseResult, spec gen.SchemaSpec, binds []binding, v veto, hist []gen.Op) *seq.Mach {
 	mc, _ := seq.New(spec, seq.MachOpts{})
 	m := mc.M
+	if leaverAt > 0 {
+		// a binding bound ahead of the judged ones that detaches itself inside
+		// its leaverAt-th handler call: the bindings behind it still get the
+		// very handler that is being dispatched
+		var lid string
+		n := 0
+		lid, _ = rec.BindMaps(m, mc.HLog, 99, rec.AllHandlerNames(gen.Sorted(spec.Names)), func(c *rec.HCall, e *am.Event) bool {
+			n++
+			if n == leaverAt {
+				_ = m.HandlersDetach(lid)
+				res.Count("bindings_detached_mid_dispatch", 1)
+			}
+			return true
+		})
+	}
 	for b, bd := range binds {
 		bb := b
 		var opts []am.BindOpts
@@ -450,6 +468,14 @@ func (eng) Run(c core.CaseDesc, tier string) *core.CaseResult {
 		run(res, spec, binds, veto{p: true}, hist)
 		res.Count("single_veto_runs", 1)
 	}
+	// the unvetoed history and a few vetoed ones once more, with a binding that leaves mid-dispatch
+	leaverAt = 1 + r.IntN(25)
+	run(res, spec, binds, veto{}, hist)
+	for k := 0; k < 3 && len(pl) > 0; k++ {
+		leaverAt = 1 + r.IntN(25)
+		run(res, spec, binds, veto{pl[r.IntN(len(pl))]: true}, hist)
+	}
+	leaverAt = 0
 	if strings.HasSuffix(c.ID, "/00000") {
 		res.Sample = map[string]any{"schema": spec.String(), "bindings": nb, "history": fmt.Sprint(hist), "veto_positions": pl}
 	}
